@@ -102,7 +102,7 @@ def nameSize (n : Needle) : Nat := if n.name.length ≥ 255 then 255 else n.name
 def mimeSize (n : Needle) : Nat := n.mime.length % 256
 
 /-- `n.Size` as computed by `prepareWriteBuffer`: 0 when there is no data (metadata is then NOT stored) -/
-def sizeOf (n : Needle) : Nat :=
+def recSize (n : Needle) : Nat :=
   if n.data.length > 0 then
     4 + n.data.length + 1
       + (if hasName n.flags then 1 + nameSize n else 0)
@@ -134,18 +134,18 @@ def bodyBytes (n : Needle) : Bytes :=
     be 4 n.data.length ++ (n.data ++ (n.flags :: metaBytes n))
   else []
 
-def headerBytes (n : Needle) : Bytes := be 4 n.cookie ++ (be 8 n.id ++ be 4 (sizeOf n))
+def headerBytes (n : Needle) : Bytes := be 4 n.cookie ++ (be 8 n.id ++ be 4 (recSize n))
 
 /-- The padding is NOT zero filled: it is whatever the 24-byte scratch `header` buffer holds after the
     checksum [and timestamp]: v2 → header[4:12] = (low half of LastModified if written, else high half of
     the id) ++ low half of the id; v3 → header[12:24] = the size bytes ++ zeros. -/
 def padSource (v : Nat) (n : Needle) : Bytes :=
-  if v = 3 then be 4 (sizeOf n) ++ [0, 0, 0, 0, 0, 0, 0, 0]
+  if v = 3 then be 4 (recSize n) ++ [0, 0, 0, 0, 0, 0, 0, 0]
   else (if n.data.length > 0 ∧ hasLastModified n.flags then be 4 n.lastModified else be 4 (n.id / 2 ^ 32)) ++ be 4 n.id
 
 def tailBytes (v : Nat) (n : Needle) : Bytes :=
   be 4 (crcValue n.checksum) ++
-    ((if v = 3 then be 8 n.appendAtNs else []) ++ (padSource v n).take (paddingLength (sizeOf n) v))
+    ((if v = 3 then be 8 n.appendAtNs else []) ++ (padSource v n).take (paddingLength (recSize n) v))
 
 /-- `prepareWriteBuffer` for versions 2 and 3: the bytes `Append` writes at the end of the file -/
 def encode (v : Nat) (n : Needle) : Bytes :=
@@ -305,7 +305,7 @@ structure Visit where
 deriving Repr, DecidableEq
 
 inductive ScanEnd where
-  | eof | panic | stuck
+  | eof | panic | err | stuck
 deriving Repr, DecidableEq
 
 /-- one `ReadNeedleHeader` + `ReadNeedleBody` + visitor call; `none` = clean end of file -/
@@ -334,11 +334,14 @@ def scanFrom (v : Nat) (file : Bytes) (readBody : Bool) : Nat → Nat → List V
     | none => ([], .eof)
     | some (.error (), _) => ([], .panic)
     | some (.ok vis, rest) =>
-      if 16 + rest ≤ 0 then ([vis], .stuck) else
-      let (more, e) := scanFrom v file readBody fuel (offset + (16 + rest).toNat)
+      -- `offset += NeedleHeaderSize + rest`; a negative position makes the next `ReadAt` fail
+      let next : Int := (offset : Int) + 16 + rest
+      if next < 0 then ([vis], .err) else
+      let (more, e) := scanFrom v file readBody fuel next.toNat
       (vis :: more, e)
 
-/-- scan with enough fuel for any file (every step advances by at least one byte) -/
+/-- scan with enough fuel for any file whose records have non-negative sizes (every step then advances by
+    at least 24 bytes); a garbage header with a negative size can send the real scanner backwards -/
 def scan (v : Nat) (file : Bytes) (offset : Nat) (readBody : Bool) : List Visit × ScanEnd :=
   scanFrom v file readBody (file.length + 2) offset
 
